@@ -10,6 +10,7 @@ import (
 	"reflect"
 	"strconv"
 	"strings"
+	"sync/atomic"
 	"time"
 )
 
@@ -176,6 +177,7 @@ func (c *Conn) PrepareContext(ctx context.Context, query string) (driver.Stmt, e
 	for _, p := range pieces {
 		n += p.nparams
 	}
+	atomic.AddInt64(&c.s.e.openStmts, 1)
 	return &Stmt{c: c, query: query, pieces: pieces, n: n}, nil
 }
 
@@ -304,7 +306,13 @@ var (
 	_ driver.StmtQueryContext = (*Stmt)(nil)
 )
 
-func (s *Stmt) Close() error  { s.closed = true; return nil }
+func (s *Stmt) Close() error {
+	if !s.closed {
+		s.closed = true
+		atomic.AddInt64(&s.c.s.e.openStmts, -1)
+	}
+	return nil
+}
 func (s *Stmt) NumInput() int { return s.n }
 
 func (s *Stmt) check() error {
